@@ -179,6 +179,29 @@ pub fn make_scenario(prop: &str, run_seed: u64, thorough: bool) -> Scenario {
                 },
             }
         }
+        "C06" => {
+            let conc = w.chance(1, 3);
+            let program = generate::gen_cyclic_program(&mut w, false);
+            let ops = generate::gen_cyclic_history(&mut w, &program, conc);
+            Scenario {
+                program,
+                ops,
+                cfg: RunCfg {
+                    storage: Storage::Mem,
+                    strict: false,
+                    yield_every: if s.chance(1, 4) { Some(s.below(3) as usize) } else { None },
+                    sched: if s.chance(1, 2) {
+                        SchedCfg::Off
+                    } else {
+                        SchedCfg::Uniform { num: 1, den: 4, k: 2, site_salt: None, preempt: true }
+                    },
+                    cyclic: true,
+                    check_c03: false,
+                    crash_check: false,
+                    sched_seed: run_seed,
+                },
+            }
+        }
         "C07" | "C08" => {
             let mut params = params.clone();
             if prop == "C08" {
@@ -275,7 +298,30 @@ fn replay_of(prop: &str, seed: u64, sc: &Scenario, out: &Outcome) -> ReplayFile 
     }
 }
 
+static CURRENT_RUN: std::sync::Mutex<Option<(Instant, String)>> = std::sync::Mutex::new(None);
+
+fn start_watchdog() {
+    let limit = simkit::env_u64("VERIF_STUCK_S", 20);
+    std::thread::spawn(move || {
+        loop {
+            std::thread::sleep(std::time::Duration::from_millis(500));
+            let stuck = {
+                let g = CURRENT_RUN.lock().unwrap();
+                g.as_ref().and_then(|(t, j)| (t.elapsed().as_secs() >= limit).then(|| j.clone()))
+            };
+            if let Some(j) = stuck {
+                // the simulation thread is blocked or spinning inside the
+                // code under test: report the run in flight and stop this
+                // worker (its last periodic summary stands)
+                println!("{j}");
+                std::process::exit(0);
+            }
+        }
+    });
+}
+
 fn batch(args: &[String]) {
+    start_watchdog();
     let prop = arg(args, "--prop").expect("--prop");
     let seed: u64 = arg(args, "--seed").and_then(|s| s.parse().ok()).unwrap_or(1);
     let worker: u64 = arg(args, "--worker").and_then(|s| s.parse().ok()).unwrap_or(0);
@@ -300,6 +346,27 @@ fn batch(args: &[String]) {
     let mut fault_counts: BTreeMap<String, u64> = BTreeMap::new();
     let emit_traces = args.iter().any(|a| a == "--emit-traces");
     let mut trace_list: Vec<(u64, u64)> = Vec::new();
+    let mut last_emit = Instant::now();
+    macro_rules! emit_summary {
+        () => {{
+            let mut o = stdout.lock();
+            writeln!(
+                o,
+                "{}",
+                serde_json::json!({
+                    "type": "summary", "prop": prop, "worker": worker, "runs": runs,
+                    "strict_runs": strict_runs, "exposed_runs": exposed, "strict_exposed_runs": strict_exposed,
+                    "failures": failures, "known": known,
+                    "nontrivial_shapes": nontrivial_shapes.iter().collect::<Vec<_>>(),
+                    "traces": traces.len(),
+                    "totals": totals, "probes": probes, "samples": samples,
+                    "faults": fault_counts, "trace_list": trace_list,
+                    "wall_s": start.elapsed().as_secs_f64(),
+                })
+            )
+            .unwrap();
+        }};
+    }
     let mut i = worker;
     while runs < max_runs && start.elapsed().as_secs_f64() < budget {
         let run_seed = mix(base, i);
@@ -329,7 +396,22 @@ fn batch(args: &[String]) {
             }
         }
         for sc in variants {
+        {
+            let rf = ReplayFile {
+                property: prop.clone(),
+                harness: "engine_sim".into(),
+                seed: run_seed,
+                scenario: sc.clone(),
+                decisions: None,
+                class: "stuck".into(),
+                message: "the simulation thread made no progress (blocked or spinning inside the code under test); wall-clock backstop".into(),
+                known: None,
+            };
+            *CURRENT_RUN.lock().unwrap() =
+                Some((Instant::now(), serde_json::json!({"type": "failure", "i": i, "replay": rf}).to_string()));
+        }
         let out = run_scenario(&sc, None);
+        *CURRENT_RUN.lock().unwrap() = None;
         runs += 1;
         if out.fault_fired {
             if let Some(f) = fault_name(&sc) {
@@ -384,30 +466,37 @@ fn batch(args: &[String]) {
             }
         }
         }
+        if last_emit.elapsed().as_secs() >= 5 {
+            emit_summary!();
+            last_emit = Instant::now();
+        }
         i += workers;
     }
-    let mut o = stdout.lock();
-    writeln!(
-        o,
-        "{}",
-        serde_json::json!({
-            "type": "summary", "prop": prop, "worker": worker, "runs": runs,
-            "strict_runs": strict_runs, "exposed_runs": exposed, "strict_exposed_runs": strict_exposed,
-            "failures": failures, "known": known,
-            "nontrivial_shapes": nontrivial_shapes.iter().collect::<Vec<_>>(),
-            "traces": traces.len(),
-            "totals": totals, "probes": probes, "samples": samples,
-            "faults": fault_counts, "trace_list": trace_list,
-            "wall_s": start.elapsed().as_secs_f64(),
-        })
-    )
-    .unwrap();
+    emit_summary!();
 }
 
 fn replay(args: &[String]) -> i32 {
     let path = &args[0];
     let rf: ReplayFile = serde_json::from_str(&std::fs::read_to_string(path).expect("read replay"))
         .expect("parse replay");
+    {
+        // backstop against executions that block the simulation thread
+        // itself (invisible to the quiescence detector)
+        let limit = simkit::env_u64("VERIF_STUCK_S", 20);
+        let expected = rf.class.clone();
+        let path = path.clone();
+        std::thread::spawn(move || {
+            std::thread::sleep(std::time::Duration::from_secs(limit));
+            let reproduced = expected == "stuck";
+            println!(
+                "{}",
+                serde_json::json!({"type": "replay", "file": path, "expected_class": expected,
+                    "class": "stuck", "message": format!("the simulation thread made no progress for {limit} s of wall-clock time (blocked or spinning inside the code under test)"),
+                    "known": null, "reproduced": reproduced, "exposed": null})
+            );
+            std::process::exit(if reproduced { 0 } else { 3 });
+        });
+    }
     let out = run_scenario(&rf.scenario, rf.decisions.as_deref());
     let (class, msg, known) = match &out.failure {
         Some(f) => (f.class.clone(), f.msg.clone(), f.known.clone()),
